@@ -181,7 +181,7 @@ def split_runs(trace_path):
     return lines, runs
 
 
-def validate_trace(trace_path, module, consts, max_rejections=25, timeout=900, tag="tv"):
+def validate_trace(trace_path, module, consts, max_rejections=25, timeout=900, tag="tv", spec="Spec"):
     """Validate an ndjson trace against spec/<module>.tla.  After a rejection, validation resumes at
     the next Reset line so that the rest of the trace is still examined.
     Returns dict(events, accepted_events, rejections=[{line, run_start, run_end, event, out}])"""
@@ -194,7 +194,7 @@ def validate_trace(trace_path, module, consts, max_rejections=25, timeout=900, t
     tmpfiles = []
     wall = 0.0
     while offset < total and len(rejections) <= max_rejections:
-        cfg = cfg_text(consts=consts, postcondition="Accepted")
+        cfg = cfg_text(spec=spec, consts=consts, postcondition="Accepted")
         r = tlc(module, cfg, workers=1, timeout=timeout, trace=cur, tag=tag, heap="6g")
         wall += r["wall"]
         if r["status"] == "ok":
